@@ -46,3 +46,21 @@ Proof.
         let H := fresh in assert (H : a = b) by lia; rewrite H; destruct b end |];
     repeat f_equal; lia ].
 Qed.
+
+Lemma fold_left_ext_ {A B} (f g : A -> B -> A) : (forall a b, f a b = g a b) -> forall l i, fold_left f l i = fold_left g l i.
+Proof. intros H. induction l as [|x l IH]; intros i; cbn [fold_left]; [reflexivity|]. rewrite H. apply IH. Qed.
+
+(* find_intergenic_areas as a WHOLE (k_find_intergenic_areas: the scan over the genes with `continue`, the closing gap,
+   the filter by minimum length); genes as (start, end) pairs *)
+Lemma tie_find_intergenic_areas start end_ genes min_length padding :
+  C15.Model.find_intergenic_areas start end_ genes min_length padding
+  = k_find_intergenic_areas start end_ genes min_length padding.
+Proof.
+  unfold C15.Model.find_intergenic_areas, k_find_intergenic_areas. cbv zeta.
+  match goal with |- context [fold_left ?f genes ([], start)] =>
+    assert (H : forall gl last acc, fold_left f gl (acc, last) = C15.Model.intergenic_go start end_ padding gl last acc) end.
+  { induction gl as [|[gs ge] rest IH]; intros last acc; cbn [fold_left C15.Model.intergenic_go]; [reflexivity|].
+    cbv beta iota. cbn [fst snd]. destruct (last <? gs + padding); [apply IH|].
+    destruct ((gs <=? last) && (last <=? ge)); apply IH. }
+  rewrite H. destruct (C15.Model.intergenic_go start end_ padding genes start []) as [areas last]. reflexivity.
+Qed.
